@@ -19,6 +19,7 @@
 
 #include "galois/substrate/Barrier.h"
 #include "galois/substrate/ThreadPool.h"
+#include "galois/substrate/Verif.h"
 
 #include <mutex>
 #include <condition_variable>
@@ -71,6 +72,7 @@ public:
     barrier1.wait();
     if (galois::substrate::ThreadPool::getTID() == 0)
       barrier1.reinit(total);
+    GALOIS_VERIF_POINT(BAR_SIMPLE_MID);
     barrier2.wait();
     if (galois::substrate::ThreadPool::getTID() == 0)
       barrier2.reinit(total);
